@@ -2996,7 +2996,14 @@ def are_co_aligned(*exprs):
 
 
 def is_valid_blockwise_op(expr):
-    return isinstance(expr, Blockwise) and not isinstance(expr, (FromPandas, FromArray))
+    return (
+        isinstance(expr, Blockwise)
+        and not isinstance(expr, (FromPandas, FromArray))
+        # A hand-written layer (``loc`` with a slice / list / element) reads
+        # other partitions of its input than the one it produces; a fused
+        # group only wires the same-numbered partition of its dependencies
+        and type(expr)._layer is Expr._layer
+    )
 
 
 def optimize_blockwise_fusion(expr):
